@@ -220,14 +220,14 @@ func init() {
 		return HarnessRun{Name: "h_crash." + name, Quick: q, Thorough: t, Split: crashSplit, Reach: reach}
 	}
 	addProp(&Prop{ID: "C05", DesignRef: "DESIGN.md §4 C05", Runs: []HarnessRun{
-		crash("Publish", 5, B{"segs": 2, "recs": 1, "vers": 1, "profs": 1, "publishes": 1, "batch": 2, "taps": 40}, B{"segs": 2, "recs": 2, "vers": 2, "profs": 1, "publishes": 2, "batch": 2, "taps": 64}, "crashed", "completed", "inflight-prefix-survived"),
-		crash("Delete", 5, B{"segs": 2, "recs": 2, "vers": 1, "profs": 1, "taps": 40}, B{"segs": 2, "recs": 2, "vers": 2, "profs": 1, "taps": 64}, "crashed", "applied", "not-applied"),
+		crash("Publish", 5, B{"segs": 2, "recs": 1, "vers": 1, "profs": 1, "publishes": 1, "batch": 2, "taps": 32}, B{"segs": 2, "recs": 2, "vers": 2, "profs": 1, "publishes": 2, "batch": 2, "taps": 64}, "crashed", "completed", "inflight-prefix-survived"),
+		crash("Delete", 5, B{"segs": 2, "recs": 2, "maxmsgs": 3, "vers": 1, "profs": 1, "taps": 40}, B{"segs": 2, "recs": 2, "vers": 2, "profs": 1, "taps": 64}, "crashed", "applied", "not-applied"),
 		crash("Migrate", 5, B{"segs": 2, "recs": 1, "vers": 2, "profs": 1, "taps": 40}, B{"segs": 2, "recs": 2, "vers": 2, "profs": 1, "taps": 64}, "crashed"),
 		crash("Recover", 5, B{"segs": 2, "recs": 1, "vers": 1, "profs": 1, "taps": 24}, B{"segs": 2, "recs": 2, "vers": 2, "profs": 1, "taps": 32}, "crashed"),
 	}, Assumptions: []string{"crash model of the property: file-system calls take effect in program order; the process may die right before any mutating call of klevdb (os.OpenFile, Write, Sync, Rename, Remove, Chtimes, MkdirAll, io.Copy); an append may be torn at any byte except inside the first 8 bytes of a file; nothing else is lost (loss of unsynced data is C06)",
 		"keys pairwise different and times strictly increasing in the crash workloads (coincidences are the subject of C09/C10)"}})
 	addProp(&Prop{ID: "C06", DesignRef: "DESIGN.md §4 C06", Runs: []HarnessRun{
-		crash("Publish", 6, B{"segs": 2, "recs": 1, "vers": 1, "profs": 1, "publishes": 2, "batch": 1, "taps": 48}, B{"segs": 2, "recs": 2, "vers": 2, "profs": 1, "publishes": 2, "batch": 2, "taps": 64}, "crashed", "completed", "synced"),
+		crash("Publish", 6, B{"segs": 2, "recs": 1, "maxmsgs": 1, "vers": 1, "profs": 1, "publishes": 1, "batch": 1, "taps": 32}, B{"segs": 2, "recs": 2, "vers": 2, "profs": 1, "publishes": 2, "batch": 2, "taps": 64}, "crashed", "completed", "synced"),
 	}, Assumptions: []string{"tail-loss model of the property: at the crash every file is independently cut back to any length between its last fsynced length and its current length (the first 8 bytes of a file are atomic); directory operations are durable in program order"}})
 	addProp(&Prop{ID: "C12", DesignRef: "DESIGN.md §4 C12", Runs: []HarnessRun{minOff, stepDelete, stepDelete2, stepDelMulti}})
 }
